@@ -77,6 +77,10 @@ cEdits == %s
     for d in (-8, -1, 0, 1, 8):
         histories.append({"init": [["si", 34], ["vc", 20], ["pad", M - 5]], "edits": [{"op": "set_vc", "n": 20 - d if d <= 0 else 20 - d}]})
         histories.append({"init": [["si", 34], ["vc", 40], ["pad", M - 3 + min(d, 0)]], "edits": [{"op": "set_vc", "n": 40 - 4 + d}, {"op": "set_vc", "n": 12}]})
+    # near the 24-bit limit with a SECOND padding block behind the first: slack the first cannot take is no reason to touch another one
+    for d in (-8, -1, 0, 1, 8):
+        histories.append({"init": [["si", 34], ["vc", 40], ["pad", M - 3 + min(d, 0)], ["pad", 64]], "edits": [{"op": "set_vc", "n": 40 - 4 + d}, {"op": "set_vc", "n": 12}]})
+        histories.append({"init": [["si", 34], ["pad", M - 2], ["vc", 40], ["app", 10], ["pad", 64], ["pad", 3]], "edits": [{"op": "set_vc", "n": 30 + d}, {"op": "rm_app", "n": 0}]})
     # refusals by the cross-block rules (a second PNG icon) where the refused list WOULD have fitted in place: with padding in front of /
     # behind the other blocks, an icon already in the file or added by the previous update, and an accepted edit after the refusal
     for pad in (44, 45, 88, 100, 4096):
